@@ -1,8 +1,76 @@
 """C11 — Accepted deletions are permanent and deletion times never move backwards."""
+import os, shutil
 from ._store import run_store
+from ..common import hx, RUNDIR
+from ..gen import ev_tok, AUTHORS
+from ..storecheck import HistGen
+from ..conc import forced, STORE_POINTS
 
 THEOREMS = ['id_marker_permanent', 'address_time_monotone', 'marked_id_refused', 'marked_id_refused_forever', 'covered_by_address_refused', 'covered_by_address_refused_forever', 'newer_not_refused', 'covered_unretrievable', 'accepted_marks_ids', 'accepted_marks_addresses']
 
 
+def races(c, runner):
+    """a deletion request racing with the event it covers: whichever thread wins, an accepted
+    request leaves the covered event unretrievable and refused on resubmission (oracle: the property
+    text; no model involved).  Thread A is paused at each yield point of its write transaction
+    while thread B runs; both directions."""
+    rng = c.rng
+    Q = c.tier == 'quick'
+    base = os.path.join(RUNDIR, 'C11r-%d' % os.getpid())
+    os.makedirs(base, exist_ok=True)
+    try:
+        scen = []
+        for k in range(4 if Q else 40):
+            g = HistGen(rng, 'C11')
+            pk = rng.choice(AUTHORS)
+            shape = ['id', 'addr-param', 'addr-repl', 'id'][k % 4]
+            t = rng.choice([100, 200, 1000])
+            if shape == 'id':
+                ev = g.new_event(kind=rng.choice([1, 1, 30023, 10002]), pk=pk, t=t, tags=[[b'd', b'x']], content=b'covered')
+                dtags = [[b'e', ev['id'].hex().encode()]]
+                dt = rng.choice([0, t, t + 5])
+            elif shape == 'addr-param':
+                ev = g.new_event(kind=30023, pk=pk, t=t, tags=[[b'd', b'x']], content=b'covered')
+                dtags = [[b'a', b'30023:' + pk.hex().encode() + b':x']]
+                dt = rng.choice([t, t + 5])
+            else:
+                ev = g.new_event(kind=10002, pk=pk, t=t, tags=[], content=b'covered')
+                dtags = [[b'a', b'10002:' + pk.hex().encode() + b':']]
+                dt = rng.choice([t, t + 5])
+            dele = g.new_event(kind=5, pk=pk, t=dt, tags=dtags, content=b'')
+            pre = ['STO ' + ev_tok(g.new_event(kind=1, content=b'other'))]
+            E, D = 'STO ' + ev_tok(ev), 'STO ' + ev_tok(dele)
+            after = ['HAS ' + hx(ev['id']), 'GID ' + hx(ev['id']), 'DEL ' + hx(ev['id']), E, 'HAS ' + hx(ev['id'])]
+            for p in STORE_POINTS:
+                for a, b, who in ((D, E, 'D'), (E, D, 'E')):
+                    scen.append(dict(pre=pre, point=p, a=a, b=b, after=after, who=who, shape=shape))
+        res = forced(c, base, scen)
+        for s, r in zip(scen, res):
+            if 'error' in r:
+                c.violation('oracle', 'forced schedule did not complete: %s' % r['error'][:80], r['lines'])
+                continue
+            if 'HUNG' in r['raw'] or 'panic' in r['raw']:
+                c.violation('oracle', 'a thread hung or panicked under the forced schedule: %s' % r['raw'][:100], r['lines'])
+                continue
+            rd = r['ra'] if s['who'] == 'D' else r['rb']
+            has, gid, dl, again, has2 = r['after']
+            c.count('race:%s:%s' % (s['shape'], 'reached' if r['reached'] else 'not-reached'))
+            if not rd.startswith('ok'):
+                continue        # the request itself was refused: nothing is claimed
+            if has != '0' or gid != 'none':
+                c.violation('oracle', 'a deletion request (%s) was accepted while the covered event was being stored by another thread '
+                            '(paused at %s); afterwards the covered event is retrievable' % (s['shape'], s['point']), r['lines'])
+                continue
+            if again.split(' ')[0] != 'deleted' or has2 != '0':
+                c.violation('oracle', 'after an accepted deletion (%s) racing with the covered event, resubmitting the event replied %s' % (s['shape'], again[:20]), r['lines'])
+                continue
+            if s['shape'] == 'id' and dl != '1':
+                c.violation('oracle', 'accepted deletion by id left no id marker under the race', r['lines'])
+                continue
+            c.nontriv(('race', s['shape'], s['point'], s['who'], r['lines'][-7][:60]))
+    finally:
+        shutil.rmtree(base, ignore_errors=True)
+
+
 def run():
-    run_store('C11', THEOREMS, """Focus: one or more deletion requests per id / address in every arrival order relative to each other and to the events they cover (before, after, resubmission), then reopen / rebuild / further stores; oracle: reply classes (deleted / ok for newer events), the retrievable set, id markers and address markers with their times, all as the specification (which keeps the maximum time) predicts after every step.""", {'reply', 'live', 'markers'}, relevant={'STO', 'HAS', 'DEL', 'NAD', 'RBD', 'OPN'})
+    run_store('C11', THEOREMS, """Focus: one or more deletion requests per id / address in every arrival order relative to each other and to the events they cover (before, after, resubmission), then reopen / rebuild / further stores; oracle: reply classes (deleted / ok for newer events), the retrievable set, id markers and address markers with their times, all as the specification (which keeps the maximum time) predicts after every step.""", {'reply', 'live', 'markers'}, relevant={'STO', 'HAS', 'DEL', 'NAD', 'RBD', 'OPN'}, extra=races)
